@@ -80,11 +80,30 @@ fn alnum(rng: &mut Rng) -> char {
     }
 }
 
+/// Mostly short names; now and then a long one (so that rendered lines get wide).
+fn name_len(rng: &mut Rng) -> usize {
+    if rng.chance(1, 14) {
+        rng.range(12, 34)
+    } else {
+        rng.below(8)
+    }
+}
+
+/// Length of a list of variants / fields: mostly `lo..=hi`, now and then long (8..24) so that the rendered
+/// list is wider than any plausible line width.
+fn list_len(rng: &mut Rng, lo: usize, hi: usize) -> usize {
+    if rng.chance(1, 12) {
+        rng.range(8, 24)
+    } else {
+        rng.range(lo, hi)
+    }
+}
+
 /// `[A-Z][A-Za-z0-9]*`
 pub fn type_name(rng: &mut Rng) -> String {
     let mut s = String::new();
     s.push(*rng.pick(UPPER) as char);
-    for _ in 0..rng.below(8) {
+    for _ in 0..name_len(rng) {
         s.push(alnum(rng));
     }
     // never a primitive keyword (those start lowercase anyway)
@@ -95,7 +114,7 @@ pub fn type_name(rng: &mut Rng) -> String {
 pub fn field_name(rng: &mut Rng) -> String {
     let mut s = String::new();
     s.push(if rng.chance(1, 4) { *rng.pick(UPPER) } else { *rng.pick(LOWER) } as char);
-    for _ in 0..rng.below(8) {
+    for _ in 0..name_len(rng) {
         if rng.chance(1, 5) {
             s.push('_');
         }
@@ -163,7 +182,7 @@ pub fn gen_ty(rng: &mut Rng, depth: usize, cfg: &GenCfg, customs: &[String], opt
         1 => GTy::Map(Box::new(gen_ty(rng, depth - 1, cfg, customs, true))),
         2 => {
             let mut used = vec![];
-            let n = rng.range(1, 4);
+            let n = list_len(rng, 1, 4);
             GTy::Enum((0..n).map(|_| GVariant { name: unique(rng, &mut used, field_name), comments: comments(rng, cfg.deep_comments) }).collect())
         }
         3 => {
@@ -195,15 +214,15 @@ pub fn gen_iface(rng: &mut Rng, cfg: &GenCfg) -> GIface {
             0 => {
                 if rng.chance(1, 3) {
                     let mut used = vec![];
-                    let nv = rng.range(1, 5);
+                    let nv = list_len(rng, 1, 5);
                     GMember::Type { name, comments: cm, body: GBody::Enum((0..nv).map(|_| GVariant { name: unique(rng, &mut used, field_name), comments: comments(rng, cfg.comments) }).collect()) }
                 } else {
-                    let nf = rng.range(0, 4);
+                    let nf = list_len(rng, 0, 4);
                     GMember::Type { name, comments: cm, body: GBody::Struct(gen_fields(rng, depth, cfg, &customs, nf, cfg.comments)) }
                 }
             }
             1 => {
-                let (ni, no) = (rng.range(0, 3), rng.range(0, 3));
+                let (ni, no) = (list_len(rng, 0, 3), rng.range(0, 3));
                 GMember::Method { name, comments: cm, inputs: gen_fields(rng, depth, cfg, &customs, ni, cfg.comments), outputs: gen_fields(rng, depth, cfg, &customs, no, cfg.comments) }
             }
             _ => {
@@ -895,6 +914,31 @@ pub fn from_iface(i: &idl::Interface<'_>) -> GIface {
 }
 
 /// Remove every comment (for token-level comparisons).
+/// Remove the comments inside inline types (fields of inline structs, variants of inline enums): the
+/// properties speak of comments on the interface, its members and their direct fields, parameters and variants.
+#[allow(dead_code)]
+pub fn strip_comments_inside_inline_types(i: &mut GIface) {
+    fn ty(t: &mut GTy) {
+        match t {
+            GTy::Optional(i) | GTy::Array(i) | GTy::Map(i) => ty(i),
+            GTy::Enum(vs) => vs.iter_mut().for_each(|v| v.comments.clear()),
+            GTy::Struct(fs) => fs.iter_mut().for_each(|f| {
+                f.comments.clear();
+                ty(&mut f.ty)
+            }),
+            _ => {}
+        }
+    }
+    for m in &mut i.members {
+        match m {
+            GMember::Type { body: GBody::Struct(fs), .. } => fs.iter_mut().for_each(|f| ty(&mut f.ty)),
+            GMember::Type { .. } => {}
+            GMember::Method { inputs, outputs, .. } => inputs.iter_mut().chain(outputs.iter_mut()).for_each(|f| ty(&mut f.ty)),
+            GMember::Error { fields, .. } => fields.iter_mut().for_each(|f| ty(&mut f.ty)),
+        }
+    }
+}
+
 pub fn strip_comments(i: &mut GIface) {
     fn ty(t: &mut GTy) {
         match t {
